@@ -36,6 +36,27 @@ PARAMS = ["amp", "xo", "yo", "sx", "sy", "theta"]
 
 
 MUTANTS = [
+    ("1-sigma index starts at 1", "AegeanTools/fitting.py",
+     "    j = 0\n    for i in range(int(params['components'].value)):\n        prefix = \"c{0}_\".format(i)\n        for p in ['amp'",
+     "    j = 1\n    for i in range(int(params['components'].value)):\n        prefix = \"c{0}_\".format(i)\n        for p in ['amp'",
+     "C04-R4"),
+    ("whitening with sqrt(L) instead of 1/sqrt(L)", "AegeanTools/fitting.py",
+     "    S = np.diag(1 / np.sqrt(L))", "    S = np.diag(1 * np.sqrt(L))",
+     "C04-R13"),
+    ("floor divided by the largest eigenvalue", "AegeanTools/fitting.py",
+     "    minL = 1e-9*L[-1]", "    minL = 1e-9/L[-1]", "C04-R13"),
+    ("correlation matrix with diagonal 2", "AegeanTools/fitting.py",
+     "    C = np.vstack([elliptical_gaussian(x, y, 1, i, j, sx, sy, theta)",
+     "    C = np.vstack([elliptical_gaussian(x, y, 2, i, j, sx, sy, theta)",
+     "C04-R13"),
+    ("later components subtracted from the model", "AegeanTools/fitting.py",
+     "                result += elliptical_gaussian(x, y, amp, xo, yo, sx, sy, theta)",
+     "                result -= elliptical_gaussian(x, y, amp, xo, yo, sx, sy, theta)",
+     "C04-R14"),
+    ("model evaluated with the axes swapped", "AegeanTools/fitting.py",
+     "            sx = params[prefix + 'sx'].value\n            sy = params[prefix + 'sy'].value\n            theta = params[prefix + 'theta'].value\n            if result",
+     "            sx = params[prefix + 'sy'].value\n            sy = params[prefix + 'sx'].value\n            theta = params[prefix + 'theta'].value\n            if result",
+     "C04-R14"),
     ("eigenvalue floor taken from the smallest eigenvalue",
      "AegeanTools/fitting.py", "    minL = 1e-9*L[-1]", "    minL = 1e-9*L[0]",
      "C04-R13"),
@@ -283,6 +304,72 @@ def r13_whitening(ctx, prog, rule="C04-R13"):
         st.lineno > clips[0].lineno for st in inv),
         "the eigenvalues are inverted before they are clipped",
         node=inv[0] if inv else fi.node)
+    # the floor is a FIXED small fraction of the largest eigenvalue, and the
+    # diagonal factor is 1/sqrt(L): both expressions are evaluated on samples
+    from .. import concrete
+    try:
+        ratios = []
+        for lmax in (10.0, 1000.0):
+            v = concrete.ev(floor, {Ln: [lmax * 1e-12, lmax * 0.5, lmax]})
+            ratios.append(v / lmax if isinstance(v, (int, float)) else None)
+        okf = None not in ratios and 0 < ratios[0] <= 1e-3 and \
+            abs(ratios[0] - ratios[1]) <= 1e-9 * abs(ratios[0])
+        ctx.check(rule, fi, "floor %s is a small fixed fraction of the "
+                  "largest eigenvalue" % norm(floor, 40), okf,
+                  "for largest eigenvalues 10 and 1000 the floor is %s times "
+                  "the largest eigenvalue: it must be the same small positive "
+                  "fraction for every scale of the covariance matrix" %
+                  ratios, node=clips[0])
+    except concrete.Unknown as e:
+        ctx.unknown_site(rule, fi, "floor %s not evaluated (%s)" %
+                         (norm(floor, 40), e), node=clips[0])
+    par = {}
+    for x in ast.walk(fi.node):
+        for ch in ast.iter_child_nodes(x):
+            par[ch] = x
+    for st in inv:
+        for c in ast.walk(st.value):
+            if isinstance(c, ast.Call) and \
+                    norm(c.func).split(".")[-1] == "sqrt" and \
+                    Ln in names_in(c):
+                top = c
+                while isinstance(par.get(top), (ast.BinOp, ast.UnaryOp)):
+                    top = par[top]
+                try:
+                    v = concrete.ev(top, {Ln: 4.0})
+                except concrete.Unknown as e:
+                    ctx.unknown_site(rule, fi, "%s not evaluated (%s)" %
+                                     (norm(top, 40), e), node=st)
+                    continue
+                ctx.check(rule, fi, "diagonal factor %s is 1/sqrt(L)" %
+                          norm(top, 40), isinstance(v, (int, float)) and
+                          abs(v - 0.5) < 1e-12,
+                          "for an eigenvalue of 4 the factor is %s, not 0.5: "
+                          "B.B' is no longer the inverse of the covariance "
+                          "matrix, so residuals and Jacobian are not "
+                          "whitened and the Fisher matrix is wrong" % (v,),
+                          node=st)
+    # the matrix that is decomposed is a CORRELATION matrix: unit diagonal
+    cm = prog.functions.get("fitting.Cmatrix") or next(
+        (f for q, f in prog.functions.items() if q.endswith("fitting.Cmatrix")),
+        None)
+    if cm is not None:
+        eg = prog.func("fitting.elliptical_gaussian")
+        k = list(eg.params).index("amp") if "amp" in eg.params else None
+        cc = [c for c in ast.walk(cm.node) if isinstance(c, ast.Call) and
+              norm(c.func).split(".")[-1] == "elliptical_gaussian"]
+        if k is None or not cc:
+            ctx.unknown_site(rule, cm, "Cmatrix does not call "
+                             "elliptical_gaussian", node=cm.node)
+        for c in cc if k is not None else []:
+            a = c.args[k] if len(c.args) > k else next(
+                (kw.value for kw in c.keywords if kw.arg == "amp"), None)
+            ctx.check(rule, cm, "unit diagonal: amplitude of " + norm(c, 50),
+                      isinstance(a, ast.Constant) and a.value == 1,
+                      "the pixel correlation matrix is built with amplitude "
+                      "%s: its diagonal is not 1, so the whitened residuals "
+                      "and every uncertainty are rescaled" %
+                      (norm(a) if a is not None else "?"), node=c)
 
 
 def r12_pixel_set(ctx, prog, rule="C04-R12"):
@@ -352,6 +439,7 @@ def run(ctx):
     r10_noise(ctx, prog)
     r12_pixel_set(ctx, prog)
     r13_whitening(ctx, prog)
+    r14_model(ctx, prog)
     ctx.rule("C04-R9", "noise / covariance model: the correlation matrix is "
              "built from the model function with the pixel positions on the "
              "right axes, the two widths in (first, second) axis order and "
@@ -377,6 +465,92 @@ def run(ctx):
 
 
 # --------------------------------------------------------------------------
+def r14_model(ctx, prog, rule="C04-R14"):
+    """the model the optimiser evaluates is the model the derivatives belong
+    to"""
+    from ..core import expand_locals
+    ctx.rule(rule, "the model function built from the parameter set is the "
+             "SUM over the components of elliptical_gaussian, each call "
+             "receiving that component's own parameters in the positions of "
+             "the same name (amp, xo, yo, sx, sy, theta): the analytic "
+             "Jacobian differentiates exactly this sum, so a component that "
+             "is subtracted, or a parameter bound to another slot, makes "
+             "every derivative row of that component wrong")
+    raw = ctx.raw_prog()
+    fn = raw.func("fitting.ntwodgaussian_lmfit")
+    callee = raw.func("fitting.elliptical_gaussian")
+    cps = list(callee.params)
+    parent = {}
+    for x in ast.walk(fn.node):
+        for ch in ast.iter_child_nodes(x):
+            parent[ch] = x
+    calls = [c for c in ast.walk(fn.node) if isinstance(c, ast.Call) and
+             norm(c.func).split(".")[-1] == "elliptical_gaussian"]
+    ctx.floor(rule, len(calls), 1, "model calls in ntwodgaussian_lmfit")
+    for c in calls:
+        scope = c
+        while scope in parent and not isinstance(scope, ast.FunctionDef):
+            scope = parent[scope]
+        bound = [(cps[i], a) for i, a in enumerate(c.args) if i < len(cps)]
+        bound += [(k.arg, k.value) for k in c.keywords if k.arg]
+        wrong = []
+        unres = []
+        for pname, a in bound:
+            if pname in cps[:2]:
+                continue
+            e = expand_locals(scope, a, 4)
+            keys = [x.value for x in ast.walk(e)
+                    if isinstance(x, ast.Constant) and isinstance(x.value, str)
+                    and x.value.strip("_") in cps]
+            if len(keys) != 1:
+                unres.append((pname, norm(a, 40)))
+            elif keys[0].strip("_") != pname:
+                wrong.append((pname, keys[0]))
+        if unres:
+            ctx.unknown_site(rule, fn, "parameter look-up behind %s not "
+                             "resolved" % unres, node=c)
+        else:
+            ctx.check(rule, fn, "component parameters go to the slots of "
+                      "their name: " + norm(c, 60), not wrong,
+                      "the model is evaluated with %s" % ", ".join(
+                          "`%s` in the position of `%s`" % (k, p_)
+                          for p_, k in wrong), node=c)
+        # how the component enters the model
+        st = c
+        while st in parent and not isinstance(st, ast.stmt):
+            st = parent[st]
+        op = None
+        if isinstance(st, ast.AugAssign) and st.value is c:
+            op = st.op
+        elif isinstance(st, ast.Assign) and st.value is c:
+            op = ast.Add()            # first component
+        elif isinstance(st, ast.Assign) and isinstance(st.value, ast.BinOp) \
+                and c in (st.value.left, st.value.right):
+            op = st.value.op
+            if isinstance(op, ast.Sub) and st.value.left is c:
+                op = None
+        elif any(isinstance(p_, ast.Call) and
+                 norm(p_.func).split(".")[-1] in ("sum", "append", "add")
+                 for p_ in _ancestors(parent, c)):
+            op = ast.Add()
+        if op is None:
+            ctx.unknown_site(rule, fn, "accumulation of the component not "
+                             "recognised: " + norm(st, 60), node=st)
+            continue
+        ctx.check(rule, fn, "components are summed: " + norm(st, 60),
+                  isinstance(op, ast.Add),
+                  "the component enters the model through `%s`: the model is "
+                  "no longer the sum of its components, and the Jacobian "
+                  "rows of this component have the wrong sign / form" %
+                  type(op).__name__, node=st)
+
+
+def _ancestors(parent, n):
+    while n in parent:
+        n = parent[n]
+        yield n
+
+
 def r1(ctx, prog, fit, jac):
     ctx.rule("C04-R1", "each row appended by the analytic Jacobian is "
              "identically d(model)/d(parameter), the model being "
@@ -687,6 +861,15 @@ def r4_r5(ctx, prog, fit, wrapper, r4="C04-R4", r5="C04-R5"):
                       "initialised inside `%s`): every component receives "
                       "the first component's uncertainties" %
                       norm(comp_loop), node=ini)
+            if not inside:
+                ctx.check(r4, fi, "the 1-sigma index starts at 0: " +
+                          norm(ini), isinstance(ini.value, ast.Constant) and
+                          ini.value.value == 0 and
+                          not isinstance(ini.value.value, bool),
+                          "the first free parameter has row 0 of the "
+                          "Jacobian; starting the index at %s hands every "
+                          "parameter the uncertainty of a later one" %
+                          norm(ini.value), node=ini)
         # paired increment
         blk = pm[store]
         body = getattr(blk, "body", [])
